@@ -71,6 +71,9 @@ func fieldsOf(t reflect.Type) []fieldInfo {
 		}
 		out = append(out, fi)
 	}
+	// by tag, whatever the order of the Go struct's fields (= the order tars2go emitted the members in): the wire
+	// format orders fields by tag, the model's schema (Gen/Schemas.v) and every value dump are in that order
+	sort.SliceStable(out, func(i, j int) bool { return out[i].Tag < out[j].Tag })
 	return out
 }
 
